@@ -63,6 +63,28 @@ func c03WholeBody(t *testing.T, s *sim.Scn, o *sim.Outcome) {
 	}
 	agg, full, light := rw.nodes[0], rw.nodes[1], rw.nodes[2]
 	rw.w.DA.AutoAdvance = true
+	// cfg evil=1: a third party runs its own sequencer node for the same chain id - a complete, unmodified node
+	// whose genesis names its own key as proposer. It produces, gossips and serves a self-consistent chain and
+	// publishes it on the same DA layer. cfg evil=2: the victims moreover list it among their configured peers
+	// (a malicious bootstrap peer), so it is asked for the first header too.
+	var evil *rnode
+	if s.Cfg["evil"] > 0 {
+		esg, ekey := sim.SignerFromSeed("attacker")
+		eaddr, _ := esg.GetAddress()
+		eg := rw.w.Genesis
+		eg.ProposerAddress = eaddr
+		priv := sim.KeyFromSeed("nodekey-evil")
+		addr, _ := multiaddr.NewMultiaddr("/ip4/10.0.0.99/tcp/7676")
+		pid, _ := peer.IDFromPublicKey(priv.GetPublic())
+		evil = &rnode{name: "evil", idx: 9, agg: true, nk: &key.NodeKey{PrivKey: priv, PubKey: priv.GetPublic()}, addr: addr, pid: pid, genesis: &eg, signer: esg}
+		evil.sn = rw.w.AddNode(sim.NodeCfg{Name: "evil", Aggregator: true, BlockTime: rw.bt, DABlockTime: rw.dat})
+		_ = ekey
+		if s.Cfg["evil"] == 2 {
+			for _, v := range []*rnode{full, light} {
+				v.extraPeers = fmt.Sprintf("%s/p2p/%s", addr, pid)
+			}
+		}
+	}
 	stopAll := func() bool {
 		ok := true
 		for _, rn := range rw.nodes {
@@ -135,6 +157,18 @@ func c03WholeBody(t *testing.T, s *sim.Scn, o *sim.Outcome) {
 	if o.V != nil {
 		return
 	}
+	if evil != nil {
+		// the evil sequencer is up first and dials the victims' hosts as soon as they exist, so that it is among
+		// the peers a victim knows when its sync service starts
+		rw.nodes = append(rw.nodes, evil)
+		evil.wantUp = true
+		rw.start(evil)
+		if o.V != nil {
+			stopAll()
+			return
+		}
+		o.Count("evil-sequencer-runs", 1)
+	}
 	time.Sleep(rw.bt + 300*time.Millisecond)
 	bringUp := func(step int) bool {
 		if !rw.reap(step, "bring-up") {
@@ -149,6 +183,13 @@ func c03WholeBody(t *testing.T, s *sim.Scn, o *sim.Outcome) {
 			}
 		}
 		connectAttacker()
+		if evil != nil && evil.up {
+			for _, v := range []*rnode{full, light} {
+				if v.up {
+					_, _ = rw.mn.ConnectPeers(evil.pid, v.pid)
+				}
+			}
+		}
 		return true
 	}
 	for i := 0; i < 4; i++ {
@@ -244,13 +285,22 @@ func c03WholeBody(t *testing.T, s *sim.Scn, o *sim.Outcome) {
 	// attack-free final phase
 	time.Sleep(2 * rw.bt)
 	target := agg.sn.Height()
-	time.Sleep(30*rw.dat + 30*time.Second)
+	for k := 0; k < 10; k++ {
+		time.Sleep(3*rw.dat + 3*time.Second)
+		if !bringUp(len(s.Ops)) { // the operator starts again whatever was refused at start-up
+			stopAll()
+			return
+		}
+	}
 	if !rw.reap(len(s.Ops), "final phase") {
 		stopAll()
 		return
 	}
 	reached := full.sn.Height()
 	for _, x := range rw.nodes {
+		if x == evil {
+			continue
+		}
 		if !x.up {
 			o.Fail("C03/node-down-under-third-party-traffic", "C03/node-down-under-third-party-traffic/"+x.name, len(s.Ops), fmt.Sprintf("%s is down at the end of the final phase (last start refused or Run returned: %v)", x.name, x.err), "third-party material does not halt a node")
 			stopAll()
@@ -288,6 +338,11 @@ func c03WholeBody(t *testing.T, s *sim.Scn, o *sim.Outcome) {
 				name := forged[string(hd.Hash())]
 				if name == "" {
 					name = "unknown-origin"
+					if evil != nil {
+						if eh, _, err := evil.sn.Peek().GetBlockData(bg, x); err == nil && bytes.Equal(eh.Hash(), hd.Hash()) {
+							name = "header-of-the-third-party-sequencer"
+						}
+					}
 				}
 				o.Fail("C03/forged-header-in-p2p-store", "C03/forged-header-in-p2p-store/"+v.name+"/"+name, len(s.Ops),
 					fmt.Sprintf("%s stores (and serves to light clients) at height %d a header that is not the proposer's: %s", v.name, x, name), "only headers signed by the genesis proposer are stored or served")
@@ -318,7 +373,7 @@ func c03WholeBody(t *testing.T, s *sim.Scn, o *sim.Outcome) {
 }
 
 func c03WholeGen(r *rand.Rand, tier string) *sim.Scn {
-	s := &sim.Scn{Cfg: map[string]int64{"whole": 1, "bt": []int64{300, 500, 1000}[r.IntN(3)], "dat": []int64{1000, 2000}[r.IntN(2)], "linkms": r.Int64N(40)}}
+	s := &sim.Scn{Cfg: map[string]int64{"whole": 1, "bt": []int64{300, 500, 1000}[r.IntN(3)], "dat": []int64{1000, 2000}[r.IntN(2)], "linkms": r.Int64N(40), "evil": []int64{0, 0, 1, 2}[r.IntN(4)]}}
 	n := 6 + r.IntN(14)
 	for i := 0; i < n; i++ {
 		switch x := r.IntN(100); {
